@@ -53,6 +53,9 @@ CHECKS = {
  "C08": ("7/C08", "TLC model check of ExpCache.tla + TLC validation of tree-shaped recordings of the real cache running on a virtual clock",
          "the library's `time` import is redirected (scratch copy only) to a virtual clock owned by the driver, so every placement of a call relative to a deadline or to a cleanup tick is enumerated exactly instead of slept for; TLC checks ExpCache!Out against the wording over ghost history (live entries kept with their latest value, no-expiry entries never purged, expired entries gone within one cleanup interval, Set/Update/MapToCache/DeleteExpired rules); every sequence of 36 operations (Set/Update x 3 keys x durations default/none/2/10, rejected values, Delete, Flush, DeleteExpired, MapToCache incl. a duplicate key and a rejected value, Tick 1/2/5) to depth 3 (thorough 4) under 6 configurations (default -1/0/4 x cleanup interval 0/6, the real cleanup goroutine driven by virtual ticker ticks with a completion barrier) plus seeded long runs over 8 keys is executed on the real code with Count, List, Get and IsExpired of every key observed after every call.",
          "exact in virtual time only (no wall-clock pass); the spec is permissive where the statement is: an observation exactly at a deadline, Count/List of expired-unpurged entries, Delete's result for a non-live key, the moment cleanup removes an expired entry (any time after the deadline, at the latest one interval after it)"),
+ "C20": ("7/C20", "TLC model checks of Debounce.tla and Throttle.tla + TLC validation of recordings of the real Delay/debounce (virtual clock) and of every interleaving of throttle programs (controlled scheduler + virtual clock)",
+         "the library's `sync` and `time` imports are redirected (scratch copy only) to a controllable scheduler and a virtual clock. Delay/NewDebounce: every sequence of call/cancel/stop and clock jumps of 1/3/4/5 units (wait 4, 1, 0) to depth 6 (thorough 8) plus seeded bursts of up to 50 calls with gaps below/at/above waits 5/20/50 and cancels anywhere; every scheduled function logs its id and the virtual instant it ran at, and TLC accepts the recording only if each run is at or after last call + wait, once per burst, never after cancel, and has happened once the clock passed last call + wait. Throttle: for every script over {Call, Cancel, Advance 2/4/5} up to length 3 (thorough 4), trailing on/off, with 1 thread calling Next once or twice or 2 threads once, EVERY interleaving of the critical sections within a preemption bound of 2 (thorough 3; switches at blocking points are free) is executed on the real code; the event sequence (calls, cancels, each clock jump as it happens, Next invocations/returns, the threads still parked at quiescence) is validated against Throttle.tla with the unlogged Grant/Deny linearization step searched between invocation and return: at most one permission per period, one stored trigger however many arrive, a trailing trigger only when configured, false promptly after Cancel, nobody left parked while a permission or a cancel is available. TLC also checks both specs against the wording over logs and shows that enabling the repaired defect (early hand-out of a trailing trigger) violates Spacing.",
+         "exact in virtual time only (no wall-clock pass); interleavings are complete at critical-section granularity up to the preemption bound; a trigger exactly at the end of a period and a run exactly at last call + wait may go either way; which function of a burst runs is not pinned by the statement"),
  "C05": ("7/C05", "TLC model check of Queue.tla + TLC validation of tree-shaped recordings of the real queues",
          "TLC checks Queue!Out against the FIFO/exactly-once/size wording exhaustively (3 values, 7 ops); every Enqueue/Dequeue/Clear sequence to depth 6 (thorough 8) on both implementations plus long seeded drain/refill runs is executed on the real code, with Size/Peek/Search observed after every call and a drain at every node, and TLC accepts the recording only if every call is an outcome of Queue!Out.",
          "bounded scope (depth, 3-value alphabet) plus seeded long runs; observers are the public API; TLC, the Go toolchain and the driver's projection are trusted"),
